@@ -361,6 +361,164 @@ def extract():
     return table
 
 
+# ------------------------------------------------------------------------------------------------
+# discarded database results below the trait methods
+# ------------------------------------------------------------------------------------------------
+
+SW_BASE = "zcash_client_sqlite/src"
+
+
+def _receiver(s, i):
+    """Start index of the method-call chain that ends right before s[i] == '.'."""
+    j = i
+    while True:
+        k = j - 1
+        while k >= 0 and s[k].isspace():
+            k -= 1
+        c = s[k]
+        if c in ")]":
+            d = 0
+            while True:
+                d += s[k] in ")]"
+                d -= s[k] in "(["
+                if d == 0:
+                    break
+                k -= 1
+            j = k
+            continue
+        if c == "?":
+            j = k
+            continue
+        if c.isalnum() or c == "_" or c == ">":
+            if c == ">":
+                d = 0
+                while True:
+                    d += s[k] == ">"
+                    d -= s[k] == "<"
+                    if d == 0:
+                        break
+                    k -= 1
+                k -= 1
+            while k >= 0 and (s[k].isalnum() or s[k] in "_:"):
+                k -= 1
+            j = k + 1
+            k2 = k
+            while k2 >= 0 and s[k2].isspace():
+                k2 -= 1
+            if s[k2] == ".":
+                j = k2
+                continue
+            return j
+        return j
+
+
+def _after_last_try(e):
+    """The part of a call chain after its last top-level `?` (what precedes it is propagated)."""
+    d, last = 0, -1
+    for i, ch in enumerate(e):
+        if ch in "([{":
+            d += 1
+        elif ch in ")]}":
+            d -= 1
+        elif ch == "?" and d == 0:
+            last = i
+    return e[last + 1:]
+
+
+def swallow_sites():
+    """Places in the non-test code of the wallet backend where the Result of something that
+    touches the database is discarded instead of propagated: `if let Err(..) = e {..}`,
+    `if let Ok(..) = e {..}`, `let _ = e`, `e.ok()`, `e.unwrap_or*(..)`, and `match e` arms
+    `Err(..) => <no error produced>`. `e` touches the database when it mentions a connection /
+    transaction / statement handle or calls a function of these files that takes one."""
+    import glob
+    import os
+    from ..core import REPO
+    files = ["lib.rs", "wallet.rs"]
+    for sub in ("wallet", "pool_migration"):
+        files += sorted(sub + "/" + os.path.basename(f) for f in glob.glob(os.path.join(REPO, SW_BASE, sub, "*.rs")))
+    files = [f for f in files if f != "wallet/init.rs"]
+    if len(files) < 10:
+        raise SrcgenError("wallet backend sources not found (%d files)" % len(files))
+    srcs = {f: top_level_test_cut(blank(srcgen.read(SW_BASE + "/" + f))) for f in files}
+    dbf = set()
+    for s in srcs.values():
+        for m in re.finditer(r"\bfn\s+([a-z_0-9]+)\s*(<[^(]*>)?\s*\(([^{;]*)", s):
+            if re.search(r"Connection|Transaction\b|SqlTransaction", m.group(3)):
+                dbf.add(m.group(1))
+    if len(dbf) < 100:
+        raise SrcgenError("only %d connection-taking functions found: extractor out of date" % len(dbf))
+    tok = re.compile(r"\bconn\b|\btx\b|\bdbtx\b|\bstmt\w*\b|\.execute\(|\.query|\.prepare|\bwdb\b|self\.store\b|\b("
+                     + "|".join(sorted(dbf)) + r")\(")
+    ws = lambda x: re.sub(r"\s+", " ", x).strip()
+    hits = []
+    for f, s in srcs.items():
+        line = lambda pos: s.count("\n", 0, pos) + 1
+        for m in re.finditer(r"\bif let (Err|Ok)\s*\(", s):
+            i, d = m.end(), 1
+            while d > 0:
+                d += s[i] == "("
+                d -= s[i] == ")"
+                i += 1
+            j = s.index("=", i)
+            k, d = j + 1, 0
+            while not (s[k] == "{" and d == 0):
+                d += s[k] in "(["
+                d -= s[k] in ")]"
+                k += 1
+            e = ws(s[j + 1:k])
+            if tok.search(_after_last_try(e)):
+                hits.append((f, line(m.start()), "if let " + m.group(1), e))
+        for m in re.finditer(r"\blet _ =", s):
+            e = ws(s[m.end():s.find(";", m.end())])
+            if tok.search(_after_last_try(e)):
+                hits.append((f, line(m.start()), "let _ =", e))
+        for m in re.finditer(r"\.(ok\(\)|unwrap_or(?:_default|_else)?\()", s):
+            e = ws(s[_receiver(s, m.start()):m.start()])
+            if tok.search(_after_last_try(e)):
+                hits.append((f, line(m.start()), "." + m.group(1), e))
+        for m in re.finditer(r"\bmatch\b", s):
+            k, d = m.end(), 0
+            while k < len(s) and not (s[k] == "{" and d == 0):
+                d += s[k] in "(["
+                d -= s[k] in ")]"
+                k += 1
+            if k >= len(s):
+                continue
+            e = ws(s[m.end():k])
+            if not tok.search(_after_last_try(e)):
+                continue
+            body = s[k + 1:match_brace(s, k)]
+            for am in re.finditer(r"\bErr\s*\(([^)]*)\)\s*(if [^=]*)?=>", body):
+                q = am.end()
+                while body[q].isspace():
+                    q += 1
+                if body[q] == "{":
+                    arm = body[q:match_brace(body, q) + 1]
+                else:
+                    d, qe = 0, q
+                    while qe < len(body) and not (body[qe] == "," and d == 0):
+                        d += body[qe] in "([{"
+                        d -= body[qe] in ")]}"
+                        qe += 1
+                    arm = body[q:qe]
+                if not re.search(r"\bErr\b|\breturn\b|\?|panic!|unreachable!", arm):
+                    hits.append((f, line(m.start()), "match Err arm", e + " => " + ws(arm)[:80]))
+    return hits
+
+
+# discarded results inspected by hand; bound to the expression text
+SWALLOW_OK = {
+    # on the error path of the failed INSERT INTO accounts: the constraint error is returned in
+    # either case, the lookup only refines it into AccountCollision
+    "3370d72609d8a8da": "wallet.rs add_account: colliding-uuid lookup inside map_err of the failed insert",
+}
+
+
+def _sw_hash(h):
+    return hashlib.sha256(("%s|%s|%s" % (h[0], h[2], h[3])).encode()).hexdigest()[:16]
+
+
 def gen():
     table = extract()
     lines = ["From Coq Require Import String List.", "From V.C02 Require Import Shape.", "Import ListNotations.",
@@ -372,7 +530,14 @@ def gen():
         rows.append('  ("%s", %s)%s' % (q, shape, ""))
     lines.append(";\n".join(rows))
     lines.append("].")
+    sw = swallow_sites()
+    lines.append("")
+    lines.append("(* places where the Result of a database-touching expression is discarded; true = inspected by hand *)")
+    lines.append("Definition swallows : list (string * bool) := [")
+    lines.append(";\n".join('  ("%s:%d %s #%s", %s)' % (h[0], h[1], h[2], _sw_hash(h), "true" if _sw_hash(h) in SWALLOW_OK else "false") for h in sw))
+    lines.append("].")
     notes = ["(* %s: %s *)" % (q, d.replace("*)", "* )")) for q, s, d in table if d]
+    notes += ["(* swallow %s:%d %s: %s *)" % (h[0], h[1], h[2], h[3].replace("*)", "* )").replace("(*", "( *")[:200]) for h in sw]
     srcgen.write_gen("C02Shapes", "\n".join(lines + [""] + notes) + "\n")
     return table
 
